@@ -88,6 +88,16 @@ Example C15_guard_stores_ok_satisfiable :
   r_stored (handle all_ok w_good) = [(1, 1); (2, 2)].
 Proof. vm_compute. repeat split; reflexivity. Qed.
 
+(* an index/create action with an unusable index name (utils.IsSafePathComponent) is an
+   ordinary failing action of the grammar: it owns the next line as its document (even
+   when that line looks like an action), gets one 400 item, stores nothing, and the
+   following action keeps its position and its document *)
+Example C15_unsafe_index_name_is_local :
+  map has_doc (actions (body_lines w_unsafe)) = [true; true] /\
+  r_items (handle all_ok w_unsafe) = [400; 201] /\
+  r_stored (handle all_ok w_unsafe) = [(1, 3)].
+Proof. vm_compute. repeat split; reflexivity. Qed.
+
 (* ---- documentation: the code BEFORE the fix (Bulk.handle_prefix) violated three of
    the clauses above; the harness keeps generating these bodies (the
    "regression" streams), so a return of the defects is a VIOLATION with a concrete input ---- *)
